@@ -7,6 +7,7 @@ import Mathlib.Tactic.FieldSimp
 import Mathlib.Data.List.Pairwise
 import Mathlib.Data.List.Basic
 import Synphot.Core.Specio
+import Synphot.Lemmas.Interp
 
 set_option linter.unusedSectionVars false
 set_option linter.unusedVariables false
@@ -291,19 +292,63 @@ theorem readUnit_ok_iff (astro : Astro) (card : Option String) (u : String) :
 theorem readUnit_none (astro : Astro) : readUnit astro none = .ok "" := by
   simp [readUnit, fixTunit, colUnit, bind, Except.bind]
 
-/-- a unit whose emitted (upper-cased) string is a name of the table for that same unit, and whose
-own generic string is too, reads back as itself -/
-theorem readUnit_of_named (astro : Astro) (u : String) (hne : emitUnit u ≠ "") (hu : u ≠ "")
-    (h1 : lookupUnitName (emitUnit u) = some u) (h2 : lookupUnitName u = some u) :
-    readUnit astro (tunitCard (emitUnit u)) = .ok u := by
-  simp [readUnit, tunitCard, fixTunit, colUnit, hne, hu, validateUnit_of_lookup astro _ _ h1,
-    validateUnit_of_lookup astro _ _ h2, bind, Except.bind]
+theorem toUpper_ne_empty (u : String) (h : u ≠ "") : u.toUpper ≠ "" := by
+  intro e
+  apply h
+  have h1 : (u.toUpper).toList = u.toList.map Char.toUpper := by
+    unfold String.toUpper; exact String.toList_map
+  rw [e] at h1
+  have h2 : u.toList = [] := by
+    have : ("" : String).toList = [] := rfl
+    rw [this] at h1
+    exact List.map_eq_nil_iff.mp h1.symm
+  exact String.toList_eq_nil_iff.mp h2
 
-/-- a unit whose upper-cased string astropy cannot parse back is written but cannot be read -/
-theorem readUnit_unparsable (astro : Astro) (u : String) (hne : emitUnit u ≠ "")
-    (h1 : lookupUnitName (emitUnit u) = none) (h2 : astro (emitUnit u) = none)
-    (h3 : astro (emitUnit u).toLower = none) :
-    readUnit astro (tunitCard (emitUnit u)) = .error .valueError := by
+/-- `validate_unit` maps the unit's own generic string to the unit -/
+def SelfValid (astro : Astro) (u : String) : Prop := validateUnit astro (.str u) = .ok u
+
+/-- the two outcomes of `_unit_to_fits_str`: upper case, and then `validate_unit` maps that string back
+to the unit; or the unit's own string -/
+theorem emitUnit_cases (astro : Astro) (u : String) :
+    (emitUnit astro u = u.toUpper ∧ validateUnit astro (.str u.toUpper) = .ok u) ∨
+      emitUnit astro u = u := by
+  unfold emitUnit
+  cases h : validateUnit astro (.str u.toUpper) with
+  | error e => right; rfl
+  | ok v =>
+    by_cases hv : v = u
+    · left; subst hv; simp
+    · right; simp [hv]
+
+theorem emitUnit_empty (astro : Astro) : emitUnit astro "" = "" := by
+  have hu : "".toUpper = "" := by decide +kernel
+  rcases emitUnit_cases astro "" with ⟨h, _⟩ | h
+  · rw [h, hu]
+  · exact h
+
+/-- whatever `_unit_to_fits_str` emits is read back as the unit: either the emitted string is the
+upper-cased one, which was checked to validate to the unit, or it is the unit's own string -/
+theorem readUnit_emit (astro : Astro) (u : String) (h : u = "" ∨ SelfValid astro u) :
+    readUnit astro (tunitCard (emitUnit astro u)) = .ok u := by
+  by_cases hu : u = ""
+  · subst hu
+    simp [emitUnit_empty, tunitCard, readUnit_none]
+  · have hs : validateUnit astro (.str u) = .ok u := by
+      rcases h with h | h
+      · exact absurd h hu
+      · exact h
+    rcases emitUnit_cases astro u with ⟨he, hv⟩ | he
+    · rw [he]
+      simp [readUnit, tunitCard, fixTunit, colUnit, toUpper_ne_empty u hu, hv, hs, hu, bind, Except.bind]
+    · rw [he]
+      simp [readUnit, tunitCard, fixTunit, colUnit, hs, hu, bind, Except.bind]
+
+/-- why the unconditional upper-casing of the unrepaired writer failed: a string that is neither in the
+name table nor parsable by astropy as it stands or lower-cased cannot be read -/
+theorem readUnit_upper_unparsable (astro : Astro) (u : String) (hne : u.toUpper ≠ "")
+    (h1 : lookupUnitName u.toUpper = none) (h2 : astro u.toUpper = none)
+    (h3 : astro u.toUpper.toLower = none) :
+    readUnit astro (tunitCard u.toUpper) = .error .valueError := by
   simp [readUnit, tunitCard, fixTunit, hne, validateUnit_unparsable astro _ h1 h2 h3, bind, Except.bind]
 
 /-! ### the writer -/
@@ -315,11 +360,11 @@ theorem zip_snd (w f : List K) (h : w.length = f.length) : (w.zip f).map Prod.sn
   List.map_snd_zip (le_of_eq h.symm)
 
 /-- the file `write_fits_spec` produces when nothing raises -/
-def writtenFile (a : WriteArgs K) (wu fu : String) (p : Dtype) (rows : List (K × K)) : FitsFile K :=
+def writtenFile (astro : Astro) (a : WriteArgs K) (wu fu : String) (p : Dtype) (rows : List (K × K)) : FitsFile K :=
   { pri := setCards [("FILENAME", a.filename), ("ORIGIN", "synphot")] a.priHeader
     exts := [{ extname := "", header := setCards [] a.extHeader, format := p,
-               cols := [⟨a.waveCol, tunitCard (emitUnit wu), rows.map Prod.fst⟩,
-                        ⟨a.fluxCol, tunitCard (emitUnit fu), rows.map Prod.snd⟩] }] }
+               cols := [⟨a.waveCol, tunitCard (emitUnit astro wu), rows.map Prod.fst⟩,
+                        ⟨a.fluxCol, tunitCard (emitUnit astro fu), rows.map Prod.snd⟩] }] }
 
 theorem writeFitsSpec_ok (astro : Astro) (a : WriteArgs K) (wu fu : String) (p : Dtype)
     (rows : List (K × K))
@@ -327,7 +372,7 @@ theorem writeFitsSpec_ok (astro : Astro) (a : WriteArgs K) (wu fu : String) (p :
     (hlen : a.wave.length = a.flux.length)
     (hp : resolvePrecision a.precision a.waveDtype a.fluxDtype = .ok p)
     (hrows : storedRows a.trimZero a.padZeroEnds a.waveDtype p a.epsilon (a.wave.zip a.flux) = .ok rows) :
-    writeFitsSpec astro a = .ok (writtenFile a wu fu p rows) := by
+    writeFitsSpec astro a = .ok (writtenFile astro a wu fu p rows) := by
   unfold writeFitsSpec writtenFile
   simp [hwu, hfu, hlen, hp, hrows, bind, Except.bind, pure, Except.pure]
 
@@ -338,7 +383,7 @@ theorem writeFitsSpec_inv (astro : Astro) (a : WriteArgs K) (file : FitsFile K)
       a.wave.length = a.flux.length ∧
       resolvePrecision a.precision a.waveDtype a.fluxDtype = .ok p ∧
       storedRows a.trimZero a.padZeroEnds a.waveDtype p a.epsilon (a.wave.zip a.flux) = .ok rows ∧
-      file = writtenFile a wu fu p rows := by
+      file = writtenFile astro a wu fu p rows := by
   unfold writeFitsSpec at h
   cases hwu : validateUnit astro a.waveSpec with
   | error e => simp [hwu, bind, Except.bind] at h
@@ -382,32 +427,18 @@ primary header, provided both emitted unit strings can be read back and the colu
 for in any letter case -/
 theorem read_written (astro : Astro) (isStr : Bool) (a : WriteArgs K) (wu fu : String) (p : Dtype)
     (rows : List (K × K)) (wc fc : String)
-    (hrw : readUnit astro (tunitCard (emitUnit wu)) = .ok wu)
-    (hrf : readUnit astro (tunitCard (emitUnit fu)) = .ok fu)
+    (hrw : readUnit astro (tunitCard (emitUnit astro wu)) = .ok wu)
+    (hrf : readUnit astro (tunitCard (emitUnit astro fu)) = .ok fu)
     (hwc : wc.toLower = a.waveCol.toLower) (hfc : fc.toLower = a.fluxCol.toLower)
     (hcols : a.waveCol.toLower ≠ a.fluxCol.toLower) :
-    readFitsSpec astro isStr (some (writtenFile a wu fu p rows)) (.idx 1) wc fc =
-      .ok ⟨(writtenFile a wu fu p rows).pri, wu, rows.map Prod.fst, fu, rows.map Prod.snd⟩ := by
+    readFitsSpec astro isStr (some (writtenFile astro a wu fu p rows)) (.idx 1) wc fc =
+      .ok ⟨(writtenFile astro a wu fu p rows).pri, wu, rows.map Prod.fst, fu, rows.map Prod.snd⟩ := by
   rw [readFitsSpec_opened]
   obtain ⟨uw1, h1, h2⟩ := (readUnit_ok_iff astro _ _).mp hrw
   obtain ⟨uf1, h3, h4⟩ := (readUnit_ok_iff astro _ _).mp hrf
   unfold writtenFile
   exact readFitsBody_two astro _ _ p a.waveCol a.fluxCol _ _ _ _ _ _ uw1 wu uf1 fu h1 h2 h3 h4
     hwc.symm hfc.symm (by rw [hfc]; exact hcols)
-
-/-- if the flux (or wavelength) unit string cannot be read back, reading the written file raises
-`ValueError` -/
-theorem read_written_unreadable (astro : Astro) (isStr : Bool) (a : WriteArgs K) (wu fu : String)
-    (p : Dtype) (rows : List (K × K)) (wc fc : String)
-    (h : fixTunit astro (tunitCard (emitUnit wu)) = .error .valueError ∨
-         (∃ u1, fixTunit astro (tunitCard (emitUnit wu)) = .ok u1 ∧
-            fixTunit astro (tunitCard (emitUnit fu)) = .error .valueError)) :
-    readFitsSpec astro isStr (some (writtenFile a wu fu p rows)) (.idx 1) wc fc = .error .valueError := by
-  rw [readFitsSpec_opened]
-  unfold writtenFile readFitsBody selectExt
-  rcases h with h | ⟨u1, h1, h2⟩
-  · simp [fixCols, h, bind, Except.bind, pure, Except.pure, List.mapM_cons, List.mapM_nil]
-  · simp [fixCols, h1, h2, bind, Except.bind, pure, Except.pure, List.mapM_cons, List.mapM_nil]
 
 theorem findCol_none (cols : List (String × String × List K)) (name : String)
     (h : ∀ c ∈ cols, c.1.toLower ≠ name) : findCol cols name = .error .valueError := by
@@ -443,5 +474,30 @@ theorem asciiTable_ok (lines : List (AsciiLine K)) (r0 : List K) (rest : List (L
   have hall' : (asciiRows lines).all (fun r => r.length == r0.length) = true := by
     rw [List.all_eq_true]; intro r hr; simpa using hall r hr
   simp [asciiTable, hne, hn, hall']
+
+/-! ### reloading: every stored row is a knot of the table built from the file -/
+
+/-- every row of a table with at least two rows is the left or the right end of one of its segments -/
+theorem mem_zip_segs : ∀ (xs ys : List K), xs.length = ys.length → 2 ≤ xs.length →
+    ∀ p ∈ xs.zip ys, ∃ s ∈ segs xs ys, s.1 = p ∨ s.2 = p
+  | x0 :: x1 :: xt, y0 :: y1 :: yt, hlen, _, p, hp => by
+    simp only [List.zip_cons_cons, List.mem_cons] at hp
+    rcases hp with rfl | rfl | hp
+    · exact ⟨((x0, y0), (x1, y1)), by simp [segs], Or.inl rfl⟩
+    · exact ⟨((x0, y0), (x1, y1)), by simp [segs], Or.inr rfl⟩
+    · cases xt with
+      | nil => simp at hp
+      | cons x2 xt' =>
+        have hl : (x1 :: x2 :: xt').length = (y1 :: yt).length := by simpa using hlen
+        obtain ⟨s, hs, h⟩ := mem_zip_segs (x1 :: x2 :: xt') (y1 :: yt) hl (by simp) p
+          (by simp only [List.zip_cons_cons, List.mem_cons]
+              cases yt with
+              | nil => simp at hl
+              | cons y2 yt' => simp only [List.zip_cons_cons, List.mem_cons] at hp ⊢; exact Or.inr hp)
+        exact ⟨s, by simp [segs, hs], h⟩
+  | [], _, _, h2, _, _ => by simp at h2
+  | [_], _, _, h2, _, _ => by simp at h2
+  | _ :: _ :: _, [], hlen, _, _, _ => by simp at hlen
+  | _ :: _ :: _, [_], hlen, _, _, _ => by simp at hlen
 
 end Synphot
